@@ -156,6 +156,14 @@ func TestDrv_C11(t *testing.T) {
 						lats[i] = c
 					}
 				}
+				if shape == 3 && n >= 10 && round%2 == 1 {
+					// a burst of slow results followed by instantaneous ones (as drawn: the slow ones arrive first)
+					for i := range lats {
+						if i >= n/5 { // (a fifth: the boundary between the two clusters stays well away from every reported quantile)
+							lats[i] = 0
+						}
+					}
+				}
 				shapeName := fmt.Sprint(shape)
 				if shape == 7 {
 					if round > 0 || n != 10000 {
@@ -187,6 +195,9 @@ func TestDrv_C11(t *testing.T) {
 					}
 					for i, v := range arr {
 						m.Add(&vegeta.Result{Seq: uint64(i), Code: 200, Timestamp: time.Unix(1600000000, int64(i)), Latency: time.Duration(v)})
+						if order == 0 && i == n/5 && n >= 10 {
+							m.Close() // a periodic report closes in between; what follows may add nothing to any running total
+						}
 						// reading a percentile or rendering a report in between (periodic reporting, a by-value snapshot) is an observation
 						if order == 2 && n >= 10 && (i == n/3 || i == n/2 || i == n-2) {
 							_ = m.Latencies.Quantile(0.5)
